@@ -7,6 +7,7 @@
 #include <frg/dyn_array.hpp>
 #include <frg/stack.hpp>
 #include <frg/list.hpp>
+#include <frg/allocation.hpp>
 
 template class frg::vector<wit::Elem, wit::Alloc>;
 template wit::Elem &frg::vector<wit::Elem, wit::Alloc>::emplace_back<int>(int &&);
@@ -25,6 +26,8 @@ template void frg::small_vector<wit::Elem, 4, wit::Alloc>::resize<>(size_t);
 template void frg::small_vector<wit::Elem, 4, wit::Alloc>::resize<wit::Elem>(size_t, wit::Elem &&);
 
 template class frg::dyn_array<wit::Elem, wit::Alloc>;
+// construct_n with an rvalue argument (n elements from one argument pack)
+template wit::Elem *frg::construct_n<wit::Elem, wit::Alloc, wit::Elem>(wit::Alloc &, size_t, wit::Elem &&);
 
 template class frg::stack<wit::Elem, wit::Alloc>;
 template void frg::stack<wit::Elem, wit::Alloc>::emplace<int>(int &&);
